@@ -58,6 +58,9 @@ mod n {
             Ray::new(point![-1.0, -1.0, -1.0], vector![1.0, 1.0, 1.0]),
             Ray::new(point![10.0, 10.0, 10.0], vector![1.0, 0.0, 0.0]),
             Ray::new(point![2.5, 0.5, -3.0], vector![0.0, 0.0, 1.0]),
+            // the first ray written as the negation of its opposite: the zero components are -0.0
+            Ray::new(point![-5.0, 0.5, 0.5], -vector![-1.0, 0.0, 0.0]),
+            Ray::new(point![0.5, 0.5, 9.0], -vector![0.0, 0.0, 1.0]),
         ]
     }
 
@@ -78,7 +81,7 @@ mod n {
     fn n_c13_bvh_equiv() {
         drive(
             "C13.bvh.equiv",
-            "BVH::build + intersects vs exhaustive test: obstacle sets of size 0..3 (0..4 thorough) drawn with repetition from 6 boxes (2 share a centre, 1 duplicate) x hit flag; leaf size {1,2,30}; 7 rays",
+            "BVH::build + intersects vs exhaustive test: obstacle sets of size 0..3 (0..4 thorough) drawn with repetition from 6 boxes (2 share a centre, 1 duplicate) x hit flag; leaf size {1,2,30}; 9 rays (two with -0.0 direction components)",
             |c| {
                 let maxn = if c.tier_thorough { 4 } else { 3 };
                 let leaf = c.of(&[1usize, 2, 30]);
@@ -115,7 +118,7 @@ mod n {
     fn n_c13_bvh_many() {
         drive(
             "C13.bvh.many",
-            "BVH::build on n in {31,45,64,200} obstacles: all the same box / all the same centre with growing size / distinct boxes along a line / a mix; leaf size {2,30}; 7 rays",
+            "BVH::build on n in {31,45,64,200} obstacles: all the same box / all the same centre with growing size / distinct boxes along a line / a mix; leaf size {2,30}; 9 rays (two with -0.0 direction components)",
             |c| {
                 let n = c.of(&[31usize, 45, 64, 200]);
                 let kind = c.pick(4);
